@@ -8,9 +8,9 @@ echo "== suite with change"; cargo test --workspace --no-fail-fast --offline 2>&
 demo=$(ls seeded/*.rs | head -1)
 cp $demo tests/zz_demo.rs
 echo "== demo with change (must fail)"; cargo test --offline --test zz_demo 2>&1 | grep -E "^test result|^test " | head -20
-git stash -q -- src
+git diff -- src > /tmp/confirm_$id.patch; git apply -R /tmp/confirm_$id.patch
 echo "== demo without change (must pass)"; cargo test --offline --test zz_demo 2>&1 | grep -E "^test result|^test " | head -20
-git stash pop -q
+git apply /tmp/confirm_$id.patch
 rm -f tests/zz_demo.rs
 echo "== done"
 } > $log 2>&1
